@@ -363,3 +363,285 @@ func (c *senderCtx) queueTailDb(p *core.Path, key ssa.Value, at ssa.Instruction)
 	}
 	return "undecided", "a value of unknown origin: " + k.String()
 }
+
+// ---------------------------------------------------------------- R04.12 an error of applying an entry ends the replay worker
+
+// ruleEntryErrorEndsWorker: a snapshot replay worker takes entries off its pipe one by one and reports one result
+// when it returns; sendRdb records the full sync as complete when every result is nil (R04.1). So a worker that
+// has seen the target refuse an entry must end with an error: if it goes on to the next entry, or returns nil, the
+// entry is missing on the target and the resume position moves to the snapshot's offset all the same.
+//
+// Decided per call, from the call onwards (not over whole iterations: a retry loop may need more passes than any
+// unrolling bound to run out of attempts). For every call in the per-entry loop of a worker that is handed the
+// entry or something made from it and reports an error: on no path that starts at the call and has seen that
+// error non-nil does the worker arrive at the head of the per-entry loop or return a nil error, unless the path
+// (a) first makes the same call again - a retry, whose own outcome is judged from there -, or (b) left through a
+// cancelled replay context (R04.2 covers cancellation after collection).
+func ruleEntryErrorEndsWorker(w *core.World, r *core.Report) {
+	errT := types.Universe.Lookup("error").Type()
+	isEntryT := func(t types.Type) bool {
+		p, ok := t.Underlying().(*types.Pointer)
+		return ok && strings.HasSuffix(core.TypeName(p.Elem()), "rdb.BinEntry")
+	}
+	isEntryChan := func(t types.Type) bool {
+		ch, ok := t.Underlying().(*types.Chan)
+		return ok && isEntryT(ch.Elem())
+	}
+	errIndex := func(v ssa.Value) bool {
+		switch t := v.Type().(type) {
+		case *types.Tuple:
+			return t.Len() > 0 && types.Identical(t.At(t.Len()-1).Type(), errT)
+		default:
+			return types.Identical(v.Type(), errT)
+		}
+	}
+	n := 0
+	for _, name := range []string{"(*syncer.RedisOutput).rdbReplay", "(*syncer.RedisOutput).rdbReplayBisync", "(*syncer.RedisOutput).rdbReplayBisyncGlobal"} {
+		g := fn(w, r, name)
+		if g == nil {
+			continue
+		}
+		cons := shortName(name) + "/entry-error-ends-worker"
+		// the per-entry loop: the loop around the receive from the entry pipe
+		var head *ssa.BasicBlock
+		for _, in := range core.OwnInstrs(g) {
+			switch x := in.(type) {
+			case *ssa.Select:
+				for _, st := range x.States {
+					if st.Dir == types.RecvOnly && isEntryChan(st.Chan.Type()) {
+						head = core.LoopHeadOf(x.Block())
+					}
+				}
+			case *ssa.UnOp:
+				if x.Op == token.ARROW && isEntryChan(x.X.Type()) {
+					head = core.LoopHeadOf(x.Block())
+				}
+			}
+		}
+		if head == nil {
+			r.Undecided(cons, g.Pos(), "the loop that takes snapshot entries off the pipe was not found")
+			n++
+			continue
+		}
+		// what is made from the entry (flow-insensitive, within the worker): the entry, what is read from it,
+		// what calls that are handed such a value return, variables such values are stored in
+		tainted := map[ssa.Value]bool{}
+		for changed := true; changed; {
+			changed = false
+			mark := func(v ssa.Value) {
+				if v != nil && !tainted[v] {
+					tainted[v], changed = true, true
+				}
+			}
+			for _, in := range core.OwnInstrs(g) {
+				if st, ok := in.(*ssa.Store); ok {
+					if tainted[st.Val] {
+						if a, isA := st.Addr.(*ssa.Alloc); isA {
+							mark(a)
+						}
+					}
+					continue
+				}
+				v, ok := in.(ssa.Value)
+				if !ok || tainted[v] {
+					continue
+				}
+				if isEntryT(v.Type()) {
+					mark(v)
+					continue
+				}
+				if _, isAlloc := v.(*ssa.Alloc); isAlloc {
+					continue
+				}
+				for _, op := range in.Operands(nil) {
+					if *op != nil && tainted[*op] {
+						mark(v)
+						break
+					}
+				}
+			}
+		}
+		var calls []*ssa.Call
+		for _, in := range core.OwnInstrs(g) {
+			c, ok := in.(*ssa.Call)
+			if !ok || !inLoop(c.Block(), head) && c.Block() != head || !errIndex(c) {
+				continue
+			}
+			handed := false
+			for _, a := range c.Call.Args {
+				if tainted[a] {
+					handed = true
+				}
+			}
+			if c.Call.IsInvoke() && tainted[c.Call.Value] {
+				handed = true
+			}
+			if handed {
+				calls = append(calls, c)
+			}
+		}
+		n++
+		if len(calls) == 0 {
+			r.Fail(cons, g.Pos(), "no call in the per-entry loop is handed the snapshot entry (or something made from it) and reports an error: the worker applies nothing it could fail on")
+			continue
+		}
+		bad, undecided := "", ""
+		var badPos token.Pos
+		var names []string
+		for _, c := range calls {
+			site := core.ResolveCall(c)
+			names = append(names, shortCallee(site))
+			idx := -1
+			for i, in := range c.Block().Instrs {
+				if in == ssa.Instruction(c) {
+					idx = i
+				}
+			}
+			sameCall := func(in ssa.Instruction) bool {
+				o, ok := in.(*ssa.Call)
+				if !ok || o == c {
+					return false
+				}
+				os := core.ResolveCall(o)
+				if site.Callee != nil {
+					return os.Callee == site.Callee
+				}
+				return os.Name == site.Name
+			}
+			okEnum := core.EnumPathsStop(c.Block(), idx, 200000, core.Unroll, func(b *ssa.BasicBlock) bool { return b == head }, func(p *core.Path) {
+				if bad != "" || !failedOn(p, c) {
+					return
+				}
+				for i, in := range p.Instrs {
+					if i > 0 && sameCall(in) {
+						return // a retry: judged from that call
+					}
+				}
+				if p.Closed && c.Block() != head {
+					return // back at the same call: a retry
+				}
+				// the path tested the variable that holds the failing call's error and took the 'nil' side: the path
+				// engine keeps loop-head phis symbolic, here the value is the error seen non-nil - not a path
+				cursor := 0
+				for _, f := range p.Conds {
+					if f.If == nil {
+						continue
+					}
+					at := -1
+					for k := cursor; k < len(p.Blocks); k++ {
+						if p.Blocks[k] == f.If.Block() {
+							at = k
+							break
+						}
+					}
+					if at < 0 {
+						continue
+					}
+					cursor = at
+					if cmp, ok := core.FactCmp(f); ok && cmp.Op == token.EQL && (core.IsNilConst(cmp.Y) || core.IsNilConst(cmp.X)) {
+						x := cmp.X
+						if core.IsNilConst(x) {
+							x = cmp.Y
+						}
+						if errorHeldAt(p, x, at, c) {
+							return
+						}
+					}
+				}
+				cancelled := false
+				for _, in := range p.Instrs {
+					sel, ok := in.(*ssa.Select)
+					if !ok {
+						continue
+					}
+					for k, st := range sel.States {
+						if st.Dir == types.RecvOnly && isCtxDone(st.Chan) {
+							if cb := caseBlock(sel, k); cb != nil {
+								for _, b := range p.Blocks {
+									if b == cb {
+										cancelled = true
+									}
+								}
+							}
+						}
+					}
+				}
+				arrives := p.Closed || (p.End != nil && len(head.Instrs) > 0 && p.End == head.Instrs[0] && p.Blocks[len(p.Blocks)-1] == head)
+				what := ""
+				switch {
+				case arrives:
+					what = "goes on to take the next entry"
+				default:
+					ret, isRet := p.End.(*ssa.Return)
+					if !isRet || ret.Parent() != g || len(ret.Results) == 0 || cancelled {
+						return
+					}
+					if !pathNil(p, ret.Results[len(ret.Results)-1]) {
+						return
+					}
+					what = "returns a nil error"
+				}
+				bad = "the error of " + site.Name + " (a snapshot entry, or something made from it, handed on towards the target) is seen non-nil on this path, yet the worker " + what + ": the entry the target refused is skipped, the worker's result is nil, and sendRdb records the full sync as complete - the resume position moves to the snapshot's offset although the target lacks the entry. The error must end the worker (after a retry loop the value tested has to be the one the attempts assigned: a ':=' inside the loop declares a new variable, the outer one stays nil)"
+				badPos = c.Pos()
+				if ret, isRet := p.End.(*ssa.Return); isRet && ret.Pos().IsValid() {
+					badPos = ret.Pos()
+				}
+			})
+			if !okEnum && undecided == "" {
+				undecided = "too many paths from the call of " + site.Name + " to the end of the iteration"
+			}
+		}
+		switch {
+		case bad != "":
+			r.Fail(cons, badPos, "%s", bad)
+		case undecided != "":
+			r.Undecided(cons, g.Pos(), "%s", undecided)
+		default:
+			r.OK(cons, g.Pos(), "%d call(s): %s", len(calls), strings.Join(names, ", "))
+		}
+	}
+	if n == 0 {
+		r.Fail("snapshot-workers/entry-error-ends-worker", token.NoPos, "no snapshot replay worker found")
+	}
+}
+
+// errorHeldAt: the value x, tested in the block at position pos of the path's block sequence, is the error result
+// of call c on this path. The path engine keeps the phis of loop heads symbolic; here they are read by the edge the
+// path really came in on (the variable a retry loop assigns the attempt's error to, tested after the loop).
+func errorHeldAt(p *core.Path, x ssa.Value, pos int, c *ssa.Call) bool {
+	v := x
+	for depth := 0; depth < 8; depth++ {
+		v = p.Resolve(v)
+		switch y := v.(type) {
+		case *ssa.Call:
+			return y == c
+		case *ssa.Extract:
+			return y.Tuple == ssa.Value(c)
+		case *ssa.Phi:
+			hb := y.Block()
+			j := -1
+			for k := pos; k >= 1; k-- {
+				if k < len(p.Blocks) && p.Blocks[k] == hb {
+					j = k
+					break
+				}
+			}
+			if j < 1 {
+				return false
+			}
+			e := -1
+			for k, pr := range hb.Preds {
+				if pr == p.Blocks[j-1] {
+					e = k
+				}
+			}
+			if e < 0 {
+				return false
+			}
+			v, pos = y.Edges[e], j-1
+		default:
+			return false
+		}
+	}
+	return false
+}
